@@ -179,7 +179,9 @@ class BalancedMarket(Strategy):
                 if sim_vehicle.battery.soc >= desired_soc:
                     # above desired SoC: find optimum power
                     min_power = 0
-                    max_power = cs.max_power
+                    # the naive pass may have offered up to cs.max_power - cs.current_power
+                    # (more than cs.max_power after a V2G discharge was booked on this station)
+                    max_power = cs.max_power - min(cs.current_power, 0)
                     safe = False
 
                     # should not lead to infinite loop, because
